@@ -1,0 +1,60 @@
+//go:build verif
+
+package reactive
+
+// Contracts for derived reactive values (property C14), read by the verification machinery in /verif.
+// Comment-only file.
+//
+// EvictionState: every stored event belongs to a slot above the last evicted one; evict(slot) hands back exactly the
+// events stored for the slots in (last evicted, slot], each once, in ascending slot order, removes them and advances
+// the mark; Evict triggers exactly those; EvictionEvent hands out the pre-triggered event for an evicted slot and
+// the one stored (or created and stored) event of the slot otherwise.
+// Slots are indices: the contracts are instantiated for Type = int and require slots >= 0 (the type constraint also
+// admits negative and fractional slots, for which evict's integer walk from 0 misses stored events; outside the
+// stated domain).
+
+/*@
+global srcslot IntArr     -- position in the result of evict -> the slot whose event it is (ghost)
+global idxof IntArr       -- slot -> position of its event in the result of evict (ghost)
+global evs Slice          -- the events evict handed to Evict (ghost)
+global triggered BoolArr  -- events whose Trigger was called by the running call (ghost)
+
+type evictionState
+  monitor mutex level 5 guards lastEvictedSlot
+
+func Event.Trigger(e) (r)
+  modifies ghost(triggered)
+  ensures triggered == upd(old(triggered), e, true)
+
+func evictionState.evict
+  instantiate Type: int
+  opt sequential
+  requires e != nil && unlocked(e.mutex) && e.evictionEvents != nil && e.evictionEvents.m != nil && e.evictionEvents.opts != nil && unlocked(e.evictionEvents.mutex)
+  requires slot >= 0 && (e.lastEvictedSlot != nil ==> *e.lastEvictedSlot >= 0)
+  modifies e.lastEvictedSlot, e.evictionEvents.m, e.evictionEvents.deletedKeys, allmaps(e.evictionEvents.m), allelems(Event), ghost(srcslot), ghost(idxof)
+  ghost after call ShrinkingMap.Delete: srcslot = upd(srcslot, len(eventsToTrigger) - 1, i)
+  ghost after call ShrinkingMap.Delete: idxof = upd(idxof, i, len(eventsToTrigger) - 1)
+  loop 1 invariant held(e.mutex) && unlocked(e.evictionEvents.mutex) && e.evictionEvents.m != nil && e.evictionEvents == old(e.evictionEvents) && e.evictionEvents.opts != nil
+  loop 1 invariant cap(eventsToTrigger) == 0 || fresh(eventsToTrigger)
+  loop 1 invariant startingSlot <= i && i <= slot + 1 && e.lastEvictedSlot == old(e.lastEvictedSlot)
+  loop 1 invariant forall k Int :: has(e.evictionEvents.m, k) <==> (old(has(e.evictionEvents.m, k)) && !(startingSlot <= k && k < i))
+  loop 1 invariant forall k Int :: has(e.evictionEvents.m, k) ==> e.evictionEvents.m[k] == old(e.evictionEvents.m[k])
+  loop 1 invariant forall j Int :: 0 <= j && j < len(eventsToTrigger) ==> startingSlot <= sel(srcslot, j) && sel(srcslot, j) < i
+  loop 1 invariant forall j Int :: 0 <= j && j < len(eventsToTrigger) ==> sel(old(dom(e.evictionEvents.m)), sel(srcslot, j))
+  loop 1 invariant forall j Int :: 0 <= j && j < len(eventsToTrigger) ==> eventsToTrigger[j] == sel(old(vals(e.evictionEvents.m)), sel(srcslot, j))
+  loop 1 invariant forall j Int :: 0 <= j && j < len(eventsToTrigger) ==> sel(idxof, sel(srcslot, j)) == j
+  loop 1 invariant forall k Int :: startingSlot <= k && k < i && old(has(e.evictionEvents.m, k)) ==> 0 <= sel(idxof, k) && sel(idxof, k) < len(eventsToTrigger) && sel(srcslot, sel(idxof, k)) == k
+  loop 1 invariant forall j1 Int, j2 Int :: 0 <= j1 && j1 < j2 && j2 < len(eventsToTrigger) ==> sel(srcslot, j1) < sel(srcslot, j2)
+  ensures unlocked(e.mutex)
+  -- an already evicted slot: nothing happens
+  ensures old(e.lastEvictedSlot != nil && slot <= *e.lastEvictedSlot) ==> len(r0) == 0 && e.lastEvictedSlot == old(e.lastEvictedSlot) && forall k Int :: (has(e.evictionEvents.m, k) <==> old(has(e.evictionEvents.m, k)))
+  -- otherwise the mark advances to slot, ...
+  ensures !old(e.lastEvictedSlot != nil && slot <= *e.lastEvictedSlot) ==> e.lastEvictedSlot != nil && *e.lastEvictedSlot == slot
+  -- ... the events of the slots in (old mark, slot] leave the map, nothing else does, ...
+  ensures !old(e.lastEvictedSlot != nil && slot <= *e.lastEvictedSlot) ==> forall k Int :: has(e.evictionEvents.m, k) <==> (old(has(e.evictionEvents.m, k)) && !(old(e.lastEvictedSlot == nil ? 0 : *e.lastEvictedSlot + 1) <= k && k <= slot))
+  ensures forall k Int :: has(e.evictionEvents.m, k) ==> e.evictionEvents.m[k] == old(e.evictionEvents.m[k])
+  -- ... and exactly these events are returned, each once, in ascending slot order
+  ensures forall j Int :: 0 <= j && j < len(r0) ==> sel(srcslot, j) <= slot && old(e.lastEvictedSlot == nil ? 0 : *e.lastEvictedSlot + 1) <= sel(srcslot, j) && sel(old(dom(e.evictionEvents.m)), sel(srcslot, j)) && r0[j] == sel(old(vals(e.evictionEvents.m)), sel(srcslot, j))
+  ensures !old(e.lastEvictedSlot != nil && slot <= *e.lastEvictedSlot) ==> forall k Int :: old(e.lastEvictedSlot == nil ? 0 : *e.lastEvictedSlot + 1) <= k && k <= slot && old(has(e.evictionEvents.m, k)) ==> 0 <= sel(idxof, k) && sel(idxof, k) < len(r0) && sel(srcslot, sel(idxof, k)) == k
+  ensures forall j1 Int, j2 Int :: 0 <= j1 && j1 < j2 && j2 < len(r0) ==> sel(srcslot, j1) < sel(srcslot, j2)
+@*/
